@@ -340,6 +340,11 @@ func (l *log) GetByTime(start time.Time) (message.Message, error) {
 		switch msg, err := rdr.GetByTime(ts, tctx); err {
 		case nil:
 			return msg, nil
+		case index.ErrTimeIndexEmpty:
+			// only the head segment can be empty, look in the older ones
+			if i == 0 {
+				return message.Invalid, err
+			}
 		case index.ErrTimeBeforeStart:
 			// not in this segment, try the rest
 			if i == 0 {
@@ -349,7 +354,10 @@ func (l *log) GetByTime(start time.Time) (message.Message, error) {
 			// time is between end of this and begin next
 			if i < len(l.readers)-1 {
 				nextRdr := l.readers[i+1]
-				return nextRdr.Get(message.OffsetOldest)
+				if msg, err := nextRdr.Get(message.OffsetOldest); err != index.ErrOffsetIndexEmpty {
+					return msg, err
+				}
+				// the next segment is the empty head, nothing is after this segment
 			}
 			return message.Invalid, errTimeNotFound
 		default:
